@@ -398,6 +398,100 @@ pub fn generate(files: &[SourceFile], report: &mut Report) -> String {
         }
         out.push_str(&format!("\n/-- `clear`, in source order: `help` (help_transfer) / `wait-commit` (a `while self.table.load(..) == ..` loop) / `restart` (`idx = 0`) -/\ndef clearMovedOrder : List String := [{}]\n", order.iter().map(|x| lean_str(x)).collect::<Vec<_>>().join(", ")));
     }
+    // `replace_node` (the one routine behind `remove`, `remove_entry`, `retain`, `retain_force`): its
+    // parameters `new_value` and `observed_value` are the *condition* of the call (`retain` passes the
+    // value its predicate rejected as `observed_value`). The models (`Seq.replaceNode`, the conditional
+    // removal of the per-key specification) keep them fixed for the whole call, whatever detours the
+    // loop takes (forwarded bins, retries after a failed re-check). Listed: every parameter declared
+    // `mut` and every assignment to a parameter.
+    {
+        let mut writes: Vec<String> = vec![];
+        let mut found = false;
+        if let Some(f) = file(files, "map.rs") {
+            if let Some(fi) = find_fn(f, "replace_node") {
+                found = true;
+                let mut params: Vec<String> = vec![];
+                for a in fi.sig.inputs.iter() {
+                    if let syn::FnArg::Typed(t) = a {
+                        if let syn::Pat::Ident(pi) = &*t.pat {
+                            params.push(pi.ident.to_string());
+                            if pi.mutability.is_some() {
+                                writes.push(format!("mut:{}", pi.ident));
+                            }
+                        }
+                    }
+                }
+                struct W<'a> {
+                    params: &'a [String],
+                    out: &'a mut Vec<String>,
+                }
+                impl<'ast, 'a> Visit<'ast> for W<'a> {
+                    fn visit_expr_assign(&mut self, a: &'ast syn::ExprAssign) {
+                        syn::visit::visit_expr_assign(self, a);
+                        let l = tokens_of(&*a.left).replace(' ', "");
+                        if self.params.iter().any(|p| *p == l) {
+                            self.out.push(format!("assign:{}", l));
+                        }
+                    }
+                    fn visit_local(&mut self, l: &'ast syn::Local) {
+                        syn::visit::visit_local(self, l);
+                        // shadowing: `let observed_value = ..`
+                        if let syn::Pat::Ident(pi) = &l.pat {
+                            if self.params.iter().any(|p| *p == pi.ident.to_string()) {
+                                self.out.push(format!("shadow:{}", pi.ident));
+                            }
+                        }
+                    }
+                }
+                let mut w = W { params: &params, out: &mut writes };
+                w.visit_block(fi.block);
+            }
+        }
+        out.push_str(&format!("\n/-- `replace_node`: parameters declared `mut`, assigned to, or shadowed in its body -/\ndef replaceNodeParamWrites : List String := [{}]\n/-- `replace_node` was found in map.rs -/\ndef replaceNodeFound : Bool := {}\n", writes.iter().map(|x| lean_str(x)).collect::<Vec<_>>().join(", "), found));
+    }
+    // `TreeBin::find` (`Proto/BinU` / `BinK`: rState -> rCas -> rTree -> rRelease): in source order, the
+    // accesses to the bin's words and the call of the tree search. The models search the tree only
+    // between the successful reader CAS and the reader's release; a root loaded before the CAS is a
+    // root that a writer may have rotated away since.
+    {
+        let mut order: Vec<String> = vec![];
+        if let Some(f) = file(files, "node.rs") {
+            if let Some(fi) = crate::util::fns(f).into_iter().find(|x| x.name == "find" && tokens_of(x.block).contains("lock_state")) {
+                struct F<'a> {
+                    out: &'a mut Vec<String>,
+                }
+                impl<'ast, 'a> Visit<'ast> for F<'a> {
+                    fn visit_expr_method_call(&mut self, m: &'ast syn::ExprMethodCall) {
+                        syn::visit::visit_expr_method_call(self, m);
+                        let name = m.method.to_string();
+                        let k = match name.as_str() {
+                            "load" => "load",
+                            "compare_exchange" | "compare_exchange_weak" => "cas",
+                            "store" => "store",
+                            "swap" => "swap",
+                            "fetch_add" | "fetch_sub" => "rmw",
+                            _ => return,
+                        };
+                        let fld = field_path(&m.receiver);
+                        if ["first", "lock_state", "next", "root", "waiter", "left", "right", "parent"].contains(&fld.as_str()) {
+                            self.out.push(format!("{}:{}", k, fld));
+                        }
+                    }
+                    fn visit_expr_call(&mut self, c: &'ast syn::ExprCall) {
+                        syn::visit::visit_expr_call(self, c);
+                        let f = tokens_of(&*c.func).replace(' ', "");
+                        if f.ends_with("find_tree_node") {
+                            self.out.push("call:find_tree_node".into());
+                        }
+                    }
+                }
+                let mut v = F { out: &mut order };
+                v.visit_block(fi.block);
+            }
+        }
+        out.push_str(&format!("\n/-- `TreeBin::find`, in source order: accesses to `first` / `lock_state` / `next` / `root` / `waiter` and the call of the tree search -/\ndef treeBinFindOrder : List String := [{}]\n", order.iter().map(|x| lean_str(x)).collect::<Vec<_>>().join(", ")));
+        report.count("tree_bin_find_order", order.len());
+    }
     out.push_str("\nend Flurry.Gen\n");
     report.count("read_closure", clos.len());
     report.count("atomic_sites", sites.len());
